@@ -90,6 +90,22 @@ def emission_features(m):
                 fs.add("goroutine-awaits-goroutine")
             if prod in own(ths[0]):
                 fs.add("goroutine-awaits-main")
+    # a waiter whose producer can itself give up (it awaits something, or its provider takes the context / can fail)
+    def can_give_up(t, upto_head):
+        for c in t:
+            # (the rendered providers honour the context only when they are fallible and are handed it)
+            if any(a.get("wait") for a in c["args"]) or (c["fallible"] and any(a["val"] == "A0" for a in c["args"])):
+                return True
+            if c["head"] == upto_head:
+                break
+        return False
+    for v in mw:
+        prod = v.split(".")[0]
+        for t in ths[1:]:
+            if prod in own(t) and can_give_up(t, prod):
+                fs.add("main-awaits-goroutine-that-can-give-up")
+                if any(v in w(t2) for t2 in ths[1:]):
+                    fs.add("main-and-goroutine-await-value-of-goroutine-that-can-give-up" + ("+err" if E["err"] else ""))
     kc = PC.k_conditions(E)
     for k, v in kc.items():
         if v:
@@ -544,6 +560,75 @@ def judge_runtime(R, S, tier, seed, props, given=None):
     return len(specs), stats
 
 
+def model_search(R, S, prop, diffs, seed):
+    """failing-input search in the interleaving semantics of the emitted programs that differ from the model's emission"""
+    from . import explore as XP
+    total = 0
+    for i, l, a, b in sorted(diffs, key=lambda d: len(d[1]))[:40]:
+        if not b.startswith("OK"):
+            continue
+        try:
+            EI = PC.parse_edump(b)
+        except ValueError:
+            continue
+        kc = PC.k_conditions(EI)
+        fnd, states = XP.search(EI, max_fail=2)
+        total += states
+        main_heads = set(c["head"] for c in EI["threads"][0])
+        for f in fnd:
+            what = None
+            if f["kind"] == "hang" and f["cancelled"] and not f["failed"]:
+                if prop == "C07" and EI["err"]:
+                    what = "the caller cancels and the injector never returns"
+            elif f["kind"] == "hang" and not f["cancelled"] and f["failed"]:
+                if prop == "C06":
+                    what = "providers %s fail and the injector never returns" % f["failed"]
+            elif f["kind"] == "leak" and prop == "C08":
+                only_main = all(h in main_heads for h in f["failed"])
+                if f["cancelled"] or not (f.get("main_failed") and only_main and kc["K8"]):
+                    what = "after the injector returned (failed: %s) goroutine(s) %s stay blocked forever" % (f["failed"], f["blocked"])
+            if not what:
+                continue
+            # try to reproduce on the compiled injector
+            pid = lambda h: "D%dP%s" % (i, h[1:])
+            fail = {pid(h): True for h in f["failed"]}
+            calls = [lab.split(":")[1].split()[0] for lab in f["trace"] if lab.startswith("t") and ":P" in lab and "fails" not in lab and "ctx" not in lab]
+            ci = f["trace"].index("caller cancels") if "caller cancels" in f["trace"] else None
+            cands = [None]
+            if ci is not None:
+                before = [lab.split(":")[1].split()[0] for lab in f["trace"][:ci] if lab.startswith("t") and ":P" in lab and "fails" not in lab and "ctx" not in lab]
+                cands = ["before"] + ["%s:%s" % (ev, pid(h)) for h in before[-3:] for ev in ("exit", "enter")]
+            live = sorted(set(pid(c["head"]) for th in EI["threads"] for c in th if c["head"].startswith("P")))
+            pats = [{}, {p: 4 for p in live}, {p: (7 * k) % 9 for k, p in enumerate(live)}]
+            specs = [dict(Name="Init%d" % i, Fail=fail, DelayIn=d, Timeout=900, **({"CancelOn": c} if c else {})) for c in cands for d in pats]
+            # faithful replay at provider granularity: the calls made before the cancellation happen in the order of the
+            # schedule (each is held inside until its predecessor has returned), the cancellation fires when the last of
+            # them returns, every other provider is slow
+            if ci is not None:
+                hold = {pid(b2): "exit:" + pid(a2) for a2, b2 in zip(before, before[1:])}
+                slow = {p2: 40 for p2 in live if p2 not in [pid(h) for h in before]}
+                specs.insert(0, dict(Name="Init%d" % i, Fail=fail, Hold=hold, DelayIn=slow, Timeout=1500,
+                                     CancelOn=("exit:" + pid(before[-1])) if before else "before"))
+            res, _ = S["E"].run_specs(specs, timeout=300)
+            repro = None
+            for sp, rs in zip(specs, res):
+                if (f["kind"] == "hang" and not rs.get("Returned")) or (f["kind"] == "leak" and rs.get("Returned") and rs.get("Leaked", 0) > 0):
+                    repro = (sp, {a2: rs.get(a2) for a2 in ("Returned", "Err", "Leaked", "LeakedAt")})
+                    break
+            if not repro:
+                # a schedule of the extracted program that the compiled injector does not follow is only a hint
+                # (the extraction is an abstraction of the text); the violation stays "no failing input found"
+                R.coverage.setdefault("model_search_unreproduced", []).append({"injector": "Init%d" % i, "what": what, "schedule": f["trace"][:40], "emitted": b})
+                continue
+            R.violation("%s: %s  [declaration: %s]" % ("Init%d" % i, what + " (schedule found in the interleaving semantics of the emitted code and reproduced on the compiled injector)", l),
+                        {"kind": "input", "failing_input": l, "injector": "Init%d" % i, "emitted": b, "model_emission": a, "schedule": f["trace"],
+                         "failed_providers": f["failed"], "caller_cancelled": f["cancelled"], "reproduced_at_runtime": bool(repro),
+                         "runtime_spec": repro[0] if repro else None, "runtime_observed": repro[1] if repro else None,
+                         "reproduce": "render the declaration (vlib/render.py), run kessoku, read the emitted function; the schedule lists the steps (tN = thread N, 0 = the injector's own goroutine)"})
+            R.coverage["model_search_states"] = total
+            return
+    R.coverage["model_search_states"] = total
+
 def run_failure_property(prop, tier, seed, note):
     R = C.Result(prop, tier, seed)
     repo_dir = C.ensure_repo_build()
@@ -562,6 +647,9 @@ def run_failure_property(prop, tier, seed, note):
         n2, stats2 = judge_runtime(R, S, tier, seed, {prop}, given=(dspecs, dres, derr))
         R.coverage["deep_search_runs_on_differing_declarations"] = n2
         n += n2
+    if diffs and not R.violations:
+        # exhaustive search over schedules x failure sets x cancellation of the *extracted* programs that differ
+        model_search(R, S, prop, diffs, seed)
     if diffs and not R.violations:
         i, l, a, b = diffs[0]
         R.violation("emitted code differs from the model's emission on %d declarations; no run of the compiled injectors violated the property" % len(diffs),
